@@ -49,7 +49,37 @@ def plant(rng, desc, obs):
 ctx_stats = {}
 
 
+def gen_default(rng):
+    """megawatt-scale system whose cells exceed the DEFAULT limits (0 ... 1e6): components carry no limits at all or a
+    partial limits dict whose keys are comfortably inside range, so every warning must come from a documented default"""
+    V = float(rng.choice([1500.0, 4000.0, 25000.0, 2.5e6]))
+    if rng.random() < 0.3:
+        V = -V
+    P = float(rng.choice([2.5e6, 8e6, 4e7]))
+    comps = [{"name": "S1", "kind": "source", "args": {"vo": V}, "parents": []}]
+    par = "S1"
+    if rng.random() < 0.7:
+        mid = rng.choice(["converter", "pswitch", "rloss"])
+        args = {"converter": {"vo": float(rng.choice([800.0, 3.3e6])), "eff": 0.9},
+                "pswitch": {"rs": 1e-6}, "rloss": {"rs": 1e-6}}[mid]
+        comps.append({"name": "M1", "kind": mid, "args": args, "parents": ["S1"]})
+        par = "M1"
+    comps.append({"name": "P1", "kind": "pload", "args": {"pwr": P, "rt": float(rng.choice([0.0, 0.5, 2.0]))}, "parents": [par]})
+    comps.append({"name": "I1", "kind": "iload", "args": {"ii": float(rng.choice([1.0, 2e6]))}, "parents": [par]})
+    for c in comps:
+        r = rng.random()
+        if r < 0.5:
+            keys = [k for k in oracles.LIMIT_KEYS if k != "tp"]
+            c["args"]["limits"] = {k: [0.0, 1e12] for k in rng.sample(keys, rng.randint(1, 3))}
+            ctx_stats["default_stream:partial_limits"] = ctx_stats.get("default_stream:partial_limits", 0) + 1
+        else:
+            ctx_stats["default_stream:no_limits"] = ctx_stats.get("default_stream:no_limits", 0) + 1
+    return {"name": "sys", "comps": comps, "phases": {}}
+
+
 def gen_fn(rng):
+    if rng.random() < 0.1:
+        return gen_default(rng)
     for _ in range(20):
         # no build detours here: limits sit exactly on cell values, so the float summation order of the children must be the plain one
         base = gen.gen_system(rng, phases=0.4, p_rt=0.6, max_nodes=14, p_neg_src_rs=0.0, n_sources=rng.choice([1, 1, 2, 3]), p_detour=0.0, p_bridge=0.0)
